@@ -532,7 +532,7 @@ def run(pid, prop, a, harnesses, scratch, logdir, seed, t0):
     with cf.ThreadPoolExecutor(max_workers=max(1, min(len(glist), 6))) as ex:
         futs = {}
         for gi, (k, hs) in enumerate(glist):
-            j = a.jobs if gi == 0 else max(1, min(len(hs), a.jobs // 4))
+            j = a.jobs if gi == 0 else max(1, min(len(hs), getattr(prop, "GROUP_JOBS", {}).get(k[0], a.jobs // 4)))
             futs[ex.submit(run_group, scratch, k[0], hs, logdir, j, gi)] = (gi, hs)
         for f in cf.as_completed(futs):
             gi, hs = futs[f]
